@@ -26,9 +26,9 @@ pub struct Case {
     pub second: Callback,
 }
 
-pub fn strategy(tier: Tier) -> BS<Case> {
+pub fn strategy(tier: Tier, big_holes: bool) -> BS<Case> {
     let key = layout::xor_key().prop_map(|k| k.unwrap_or_else(|| vec![0x5a, 0x01, 0xff, 0x00, 0x80, 0x7f, 0x33, 0xc4]));
-    (gen::chain(&crate::c03::chain_cfg(tier)), layout::layout(tier, false, true), key, proptest::sample::select(ALL_CALLBACKS[1..].to_vec()))
+    (gen::chain(&crate::c03::chain_cfg(tier)), layout::layout(tier, false, big_holes), key, proptest::sample::select(ALL_CALLBACKS[1..].to_vec()))
         .prop_map(|(mut chain, mut layout, key, second)| {
             // opreturn text must be fully specified by the model: only single-push OP_RETURN shapes
             for b in chain.blocks.iter_mut() {
@@ -131,14 +131,17 @@ pub fn check(c: &Case) -> Verdict {
 }
 
 fn run(eng: &Engine, a: &Args) {
-    let n = if a.tier == Tier::Quick { 300 } else { 3000 };
+    // two phases: a change that mis-decodes sends the reader into multi-GiB holes (a run that only
+    // ends at the watchdog = inconclusive); layouts without such holes fail fast and come first
+    let (n1, n2) = if a.tier == Tier::Quick { (200, 100) } else { (2000, 1000) };
     let tier = a.tier;
-    eng.explore("xor-vs-plaintext", scaled(n, a), move || strategy(tier), check);
+    eng.explore("xor-vs-plaintext", scaled(n1, a), move || strategy(tier, false), check);
+    eng.explore("xor-vs-plaintext-4GiB", scaled(n2, a), move || strategy(tier, true), check);
 }
 
 fn replay(part: &str, case: serde_json::Value) -> Option<Verdict> {
     match part {
-        "xor-vs-plaintext" => Some(check(&serde_json::from_value(case).ok()?)),
+        "xor-vs-plaintext" | "xor-vs-plaintext-4GiB" => Some(check(&serde_json::from_value(case).ok()?)),
         _ => None,
     }
 }
